@@ -101,7 +101,7 @@ func runBuild(c *Ctx) {
 		if cl, ok := isCallTo(ap.Common().Args[0], "Signature"); ok && isSet(cl.Common().Args[0], outP) {
 			for _, e := range appendedValues(ap) {
 				if ld, ok := e.(*ssa.UnOp); ok {
-					if g, ok := ld.X.(*ssa.Global); ok && g.Name() == "errType" {
+					if g, ok := ld.X.(*ssa.Global); ok && g == p.ErrTypeGlobal() {
 						outSig = true
 					}
 				}
